@@ -42,13 +42,13 @@ PLANS = {
         "floor": 2000,
     },
     "C10": {
-        "quick": [sess("mixed", "C10", 400, 40)],
-        "thorough": [sess("mixed", "C10", 5000, 300)],
+        "quick": [sess("mixed", "C10", 400, 25), sess("mixed", "C10", 200, 25, args={"builder": 1, "nolibwalk": 1})],
+        "thorough": [sess("mixed", "C10", 5000, 300), sess("mixed", "C10", 3000, 300, args={"builder": 1, "nolibwalk": 1})],
         "floor": 2000,
     },
     "C11": {
-        "quick": [sess("mixed", "C11", 400, 40, args={"short": 1})],
-        "thorough": [sess("mixed", "C11", 5000, 300, args={"short": 1})],
+        "quick": [sess("mixed", "C11", 400, 25, args={"short": 1}), sess("mixed", "C11", 200, 25, args={"builder": 1, "short": 1, "nolibwalk": 1})],
+        "thorough": [sess("mixed", "C11", 5000, 300, args={"short": 1}), sess("mixed", "C11", 3000, 300, args={"builder": 1, "short": 1, "nolibwalk": 1})],
         "floor": 2000,
     },
     "C12": {
@@ -94,6 +94,11 @@ PLANS.update({
         "thorough": [job("c19", trace=True), job("c19", trace=True, variant="noalloc"), job("c19", trace=True, variant="nouni")],
         "floor": 5000,
         "post": "c19",
+    },
+    "C20": {
+        "quick": [job("c20"), job("c20", profile="relwrap")],
+        "thorough": [job("c20", timeout=3600), job("c20", profile="relwrap", timeout=3600)],
+        "floor": 2000,
     },
     "C15": {
         "quick": [job("c15"), job("c15", variant="nouni")],
@@ -169,6 +174,9 @@ LEVEL_TEXT.update({
     "C13": "Exploration: random read-only sessions (open/list/seek/read/extents/labels/flags/statistics, drop/unmount/abandon) on builder-made and library-populated volumes of every width, clean or dirty at mount, with known/unknown FS-info counts, on a normal and on a write-refusing device; every device write is an alarm unless it is the documented FS-info exception.",
     "C19": "Exploration (differential): the same driver compiled with three feature sets replays identical seeded histories (every long-name length 1..255, random sessions, foreign images); final image SHA-256 and observation traces are compared pairwise offline (full vs no-alloc on everything; full vs no-unicode on ASCII and exact-case sets).",
 })
+LEVEL_TEXT.update({
+    "C20": "Exploration: sparse simulated devices from 4 GiB to 16 TiB (512-byte sectors up to 2^32-1 sectors, 4 KiB sectors up to the FAT32 cluster limit, a FAT with 2^28 entries) are laid down without zero-fill with the next-free hint at, before and past the last cluster, at the 4 GiB and 1 TiB marks, with the tail used or only the last cluster free; a scripted and a random history run under the reference-model, fsck, extents, FAT-copy, write-classifier and beyond-the-end monitors, in checked and wrapping builds.",
+})
 LEVEL_NOTE = {
     "*": "Trusted base: the harness (device, independent decoder fatck, reference model) and rustc's dynamic checks (overflow checks, debug assertions, bounds checks are ON in the relcheck profile). Only executed histories are covered; see evidence coverage for what was observed.",
 }
@@ -219,6 +227,12 @@ RULES.update({
     "C08": "evaluations = images built + entries compared + API calls of the mutation sessions; distinct = distinct (geometry class, status byte, FS-info mode, encoding switches, entry count) tuples plus session tuples",
     "C13": "evaluations = API calls of read-only sessions; distinct = distinct (volume origin/width/device kind/trust class, op kind, result kind, tree state) tuples",
     "C19": "evaluations = API calls replayed per build; distinct = distinct cases (kind, id) whose traces and image hashes were compared",
+})
+TECHNIQUE.update({
+    "C20": "runtime monitoring: device offsets / extents vs independent 64/128-bit geometry on sparse devices, beyond-the-end access log",
+})
+RULES.update({
+    "C20": "evaluations = API calls on large sparse volumes; distinct = distinct (volume layout, op kind, result kind, tree state) tuples; every geometry x hint placement of the spec list is executed",
 })
 DESIGN_REF = {}
 NOT_APPLICABLE = []
